@@ -202,7 +202,7 @@ Fixpoint bfs (g : ecfg) (F : facts) (fuel : nat) (q : list (nat * nat)) (c : com
       end
   end.
 
-Definition n_edges (g : ecfg) : nat := length (flat_map (fun b => e_succ b ++ e_dsucc b) g).
+Definition n_edges (g : ecfg) : nat := length (flat_map (flow_s g) (seq 0 (length g))).
 
 Definition check_cfg_with (g : ecfg) (F : facts) (inputs : env) : result compiled :=
   match check_bb g F 0 inputs with
